@@ -475,10 +475,12 @@ def inject_geometry(a, parms, indirect_values):
         put(t, parms[0])
 
 
-def replay_chain(ck, rep, j, stride_pdf, traces, trace_stride):
+def replay_chain(ck, rep, j, stride_pdf, traces, trace_stride,
+                 want_calls=("Fl", "LZW", "LZW0", "A85", "AHx", "RL", "CCF", "png", "tiff")):
     from pdfminer.pdftypes import PDFObjRef, PDFStream
     batch = sr.PdfBatch(size=300)
     n = 0
+    n_long = 0
     drift = 0
     seen_calls = set()
 
@@ -501,11 +503,19 @@ def replay_chain(ck, rep, j, stride_pdf, traces, trace_stride):
         n += 1
         layers = [tuple(x) for x in r["l"]]
         payload = sr.CHAIN_PAYLOADS[n % len(sr.CHAIN_PAYLOADS)]
+        # an LZW stage only tells /EarlyChange 0 from 1 beyond 253 codes: chains in which a value could reach the
+        # wrong stage (two LZW stages, one with /EarlyChange 0) always get the long payload, other chains with an
+        # /EarlyChange 0 stage every fourth time
+        nlzw = sum(1 for l in layers if l[0] == "LZW")
+        ec0 = any(l[0] == "LZW" and l[2] == 0 for l in layers)
+        if ec0 and (nlzw >= 2 or n % 4 == 0):
+            payload = sr.LONG_PAYLOAD
+            n_long += 1
         raw, parms = sr.chain_encode(layers, payload, n)
         a = r["a"] if isinstance(r["a"], dict) else {}
-        indirect_values = '"Predictor": {"t": "ref"' in json.dumps(a)
+        indirect_values = '{"t": "ref", "v": {"t": "int"' in json.dumps(a)
         inject_geometry(a, parms, indirect_values)
-        tag = "/".join("%s%s" % (f, "+P%d" % p if p else "") for f, p in layers) or "(none)"
+        tag = "/".join("%s%s%s" % (f, "+P%d" % p if p else "", "+EC%d" % ec if ec >= 0 else "") for f, p, ec in layers) or "(none)"
         if r["e"] != "none" or r["d"]:
             drift += 1
         # direct: a PDFStream object as the parser would build it
@@ -522,6 +532,7 @@ def replay_chain(ck, rep, j, stride_pdf, traces, trace_stride):
         with so.decode_calls() as log:
             try:
                 got = st.get_data()
+                got = sr.second_answer(st, got)
             except Exception as e:      # noqa: BLE001
                 exc = e
             calls = list(log)
@@ -532,7 +543,7 @@ def replay_chain(ck, rep, j, stride_pdf, traces, trace_stride):
             if drift <= 3:
                 ck.note("FilterChain drift: %s decoded correctly with calls %r, the model makes %r" % (tag, calls, r["c"]))
         seen_calls.update(calls or ())
-        nontriv = len(layers) >= 2 or any(p for _f, p in layers)
+        nontriv = len(layers) >= 2 or any(p or ec >= 0 for _f, p, ec in layers)
         ck.case(1, ("chain", json.dumps(r["a"], sort_keys=True)) if nontriv else None)
         # through a PDF
         if n % stride_pdf == 0:
@@ -545,11 +556,112 @@ def replay_chain(ck, rep, j, stride_pdf, traces, trace_stride):
             ck.sample({"part": "FilterChain", "layers": r["l"], "stream_dictionary": r["a"], "payload": payload,
                        "raw_stream_bytes": raw[:80], "decoded": got, "decoder_calls": calls})
     batch.run(on_result, with_calls=True)
-    need = {"Fl", "LZW", "A85", "AHx", "RL", "png", "tiff"}
+    need = set(want_calls)
     if not need <= seen_calls:
         raise MachineryError("FilterChain replay never reached decoder(s) %s" % sorted(need - seen_calls))
+    if "LZW0" in need and not n_long:
+        raise MachineryError("FilterChain replay used no payload long enough to tell /EarlyChange 0 from 1")
+    ck.extra["chain_cases_with_long_payload_" + j.label] = n_long
     ck.replayed += n
     return n, drift
+
+
+# =============================================================================================== A: StreamObject
+OBJECT_FILTERS = ((("Fl", 0, -1),), (("LZW", 0, -1),), (("LZW", 0, 0),), (("AHx", 0, -1),), (("A85", 0, -1),), (("RL", 0, -1),),
+                  (("CCF", 0, -1),), (("Fl", 15, -1),), (("LZW", 2, -1),), (("A85", 0, -1), ("Fl", 12, -1)))
+
+
+def replay_object(ck, rep, j):
+    """every call sequence TLC enumerates on StreamObject.tla, on real PDFStream objects (built directly and fetched
+    with PDFDocument.getobj), unfiltered and through every filter, for an empty and non-empty payloads"""
+    from pdfminer.pdfdocument import PDFDocument
+    from pdfminer.pdfparser import PDFParser
+    from pdfminer.pdftypes import PDFStream
+    from pdfminer.psparser import LIT
+    n = 0
+    drift = 0
+    cases = []
+    for r in lines(j):
+        n += 1
+        pls = (b"",) if not r["p"] else (b"\x07", sr.CHAIN_PAYLOADS[n % 5])
+        for payload in pls:
+            for layers in (OBJECT_FILTERS if r["f"] else ((),)):
+                raw, parms = sr.chain_encode(list(layers), payload, n)
+                cases.append((r, payload, layers, raw, parms))
+        if n % 60 == 1:
+            ck.sample({"part": "StreamObject", "payload": r["p"], "filtered": r["f"], "calls": r["plan"], "model_answers": r["a"]})
+
+    def attrs_for(layers, parms, pdf):
+        if not layers:
+            return {}
+        out = {"Filter": [(Name if pdf else LIT)(FULL[l[0]]) for l in layers]}
+        dp = []
+        for l, g in zip(layers, parms):
+            d = dict(g or {})
+            if l[1]:
+                d["Predictor"] = l[1]
+            if l[2] >= 0:
+                d["EarlyChange"] = l[2]
+            if l[0] == "CCF":
+                d["K"] = -1
+            dp.append(d or None)
+        if any(dp):
+            out["DecodeParms"] = dp
+        return out
+
+    def run_plan(st, r, payload, raw, how, replay):
+        nonlocal drift
+        for k, call in enumerate(r["plan"]):
+            try:
+                ans, exc = getattr(st, call)(), None
+            except AssertionError as e:
+                ans, exc = None, e
+            except Exception as e:       # noqa: BLE001
+                ans, exc = None, e
+            model = r["a"][k] if k < len(r["a"]) else None
+            if call == "get_data":
+                if exc is not None or ans != payload:
+                    what = "call %d of %r on a stream with payload %r (%s, %s): %s instead of the payload" % (
+                        k + 1, r["plan"], payload[:20], how, "/".join(l[0] for l in replay["layers"]) or "unfiltered",
+                        repr(exc) if exc is not None else repr(ans[:20] if ans else ans))
+                    rep("object:get_data:" + ("exc:" + excname(exc) if exc is not None else "wrong-bytes"), what, replay)
+                    return
+            elif call == "get_rawdata":
+                want = raw if (model and model["set"]) else None
+                if exc is not None or ans != want:
+                    drift += 1
+            else:
+                if (exc is not None) != (r["e"] != "none" and k == len(r["a"]) - 1):
+                    drift += 1
+                if exc is not None:
+                    return
+        ck.case(1, ("object", tuple(r["plan"]), payload, how, json.dumps(replay["layers"])) if len(r["plan"]) > 1 else None)
+
+    batch = sr.PdfBatch(size=400)
+    pending = []
+    for (r, payload, layers, raw, parms) in cases:
+        rp = {"part": "object", "layers": [list(l) for l in layers], "raw": raw, "expected": payload, "plan": r["plan"],
+              "parms": parms}
+        run_plan(PDFStream(attrs_for(layers, parms, False), raw), r, payload, raw, "PDFStream built directly", rp)
+        objid = batch.add(attrs_for(layers, parms, True), raw, payload, None)
+        pending.append((objid, r, payload, raw, rp))
+        if batch.full() or (r, payload, layers, raw, parms) is cases[-1]:
+            pdf, _info = batch.build()
+            doc = PDFDocument(PDFParser(io.BytesIO(pdf)))
+            for (oid, r2, pl2, raw2, rp2) in pending:
+                class Via:
+                    """every call fetches the object again: PDFDocument hands out the same cached PDFStream"""
+                    def __getattr__(self, name, oid=oid):
+                        return getattr(doc.getobj(oid), name)
+                run_plan(Via(), r2, pl2, raw2, "PDFDocument.getobj", dict(rp2, part="pdf", pdf=pdf, objid=oid))
+            pending = []
+            batch._reset()
+    ck.replayed += n
+    return n, drift
+
+
+FULL = {"Fl": "FlateDecode", "LZW": "LZWDecode", "AHx": "ASCIIHexDecode", "A85": "ASCII85Decode", "RL": "RunLengthDecode",
+        "CCF": "CCITTFaxDecode"}
 
 
 # =============================================================================================== A: LZW
@@ -1254,8 +1366,11 @@ def task(kind, init, jobinfo, params):
             _n, out["drift"] = replay_delim(ck, rep, j, params["variants"])
         elif kind == "fc":
             chain = []
-            _n, out["drift"] = replay_chain(ck, rep, j, 1, chain, params["trace_stride"])
+            kw = {"want_calls": params["want_calls"]} if "want_calls" in params else {}
+            _n, out["drift"] = replay_chain(ck, rep, j, 1, chain, params["trace_stride"], **kw)
             out["traces"] = {"chain": chain}
+        elif kind == "so":
+            _n, out["drift"] = replay_object(ck, rep, j)
         elif kind == "lzw":
             nm = params["maps"]
             maps = (lambda n: tuple((n + i) % 4 for i in range(nm)))
@@ -1353,8 +1468,13 @@ def run(ck):
     jobs = {
         "sd": Job("StreamDelim", "MC_StreamDelim", sd_c, ["PayloadExact", "ResumeOK", "BufferOK"], ["NlProgress"], emit=True,
                   coverage=quick),
-        "fc": Job("FilterChain", "MC_FilterChain", {"Layers": "<- LayersCore" if quick else "<- LayersAll", "MaxChain": 2 if quick else 3},
+        "fc": Job("FilterChain", "MC_FilterChain", {"Layers": "<- LayersCore" if quick else "<- LayersAll", "MaxChain": 2},
                   ["ChainInverts", "PeelsInOrder", "CallsMatch", "CallsAsPredicted"], emit=True, coverage=quick),
+        "fc3": Job("FilterChain_three_stages", "MC_FilterChain",
+                   {"Layers": "<- LayersLeakSmall" if quick else "<- LayersLeak", "MaxChain": 3},
+                   ["ChainInverts", "PeelsInOrder", "CallsMatch", "CallsAsPredicted"], emit=True),
+        "so": Job("StreamObject", "MC_StreamObject", {"MaxCalls": 3 if quick else 4, "Payloads": "<- TwoPayloads"},
+                  ["SameAnswerEveryTime", "RawUntilDecoded", "OneHeld", "OnlyDoubleDecodeFails"], emit=True, coverage=quick),
         "lzwF": Job("LZW_full", "MC_LZW", lz(**lzF), lzw_inv, emit=True, coverage=quick),
         "lzwW": Job("LZW_width", "MC_LZW", lz(**lzW), lzw_inv, emit=not lzw_dev, coverage=quick),
         "lzwWF": Job("LZW_width_full", "MC_LZW", lz(**lzWF), lzw_inv, emit=not lzw_dev, coverage=quick),
@@ -1376,6 +1496,10 @@ def run(ck):
         "pr": Job("Predictor_intended", "MC_Predictor", pr_c("<- NoDev", geoms), ["Inverts", "RowLengthOK", "RefInverts"],
                   emit=not png_dev),
     }
+    if not quick:
+        plan_extra = [("fcw", "fcw", "fc", {"trace_stride": 200, "want_calls": ("LZW", "AHx", "A85", "RL", "Fl", "png", "tiff")})]
+        jobs["fcw"] = Job("FilterChain_three_stages_wide", "MC_FilterChain", {"Layers": "<- LayersWide", "MaxChain": 3},
+                          ["ChainInverts", "PeelsInOrder", "CallsMatch", "CallsAsPredicted"], emit=True)
     if lzw_dev:
         ld = tla_set(lzw_dev)
         jobs["lzwWc"] = Job("LZW_width_as_coded", "MC_LZW", lz(d=ld, **lzW), ["InvertsUnlessDev", "TableBound"], emit=True)
@@ -1394,20 +1518,24 @@ def run(ck):
     init = {"pid": ck.pid, "tier": ck.tier, "seed": ck.seed, "tmp": ck.tmp, "known": ck.known_keys()}
     tf = procs.submit(task, "traces", init, None, {"dev": dev})
     order = ["pr", "prc", "sd", "fc", "lzwF", "lzwW", "lzwWc", "lzwWF", "lzwWFc", "sdx", "rl3", "rl2", "af", "afc", "afr",
-             "prr", "lzwr", "fl"]
+             "prr", "lzwr", "fl", "so", "fc3", "fcw"]
     futs = {k: pool.submit(run_job, ck, jobs[k]) for k in order if k in jobs}
     cov = {"sd": ["AKeyword", "AResolveLength", "ASeekKeyword", "ANlFill", "ANlSearch", "ANlAfterCR", "AReadPayload",
                   "AScanLine", "APushStream"],
-           "fc": ["AGet", "ANormalise", "Codec", "ANoPredictor", "ATiff", "APng", "ADone"],
+           "fc": ["AGet", "ANormalise", "Codec", "ACCF", "ANoPredictor", "ATiff", "APng", "ADone"],
            "lzwF": ["ARead", "AClear", "AClearAgain", "AEOD", "AFirst", "AKnown", "AKwKwK"],
            "lzwW": ["ARead", "AClear", "AClearAgain", "AEOD", "AFirst", "AKnown", "AKwKwK"],
            "lzwWF": ["ARead", "AClear", "AClearAgain", "AEOD", "AFirst", "AKnown", "AKwKwK"],
            "rl3": ["AReadLen", "AEOD", "ALiteral", "ARepeat"], "rl2": [], "sdx": [],
-           "fl": ["AOneShot", "AFeed", "AExcept", "AEndOfData"],
+           "fl": ["AOneShot", "AFeed", "AExcept", "AEndOfData"], "fc3": [], "fcw": [],
+           "so": ["AGetDataFirst", "AGetDataAgain", "AGetRaw", "ADecode", "ADecodeTwice"],
            "af": ["AHexStrip", "AHexEOD", "AUnhex", "AStart", "AEnd", "ACore"], "pr": []}
     # which emitted enumeration is replayed for which module, and how
     plan = [("sd", "sd", "sd", {"variants": (0,) if quick else (0, 1)}),
             ("fc", "fc", "fc", {"trace_stride": 8 if quick else 40}),
+            ("fc3", "fc3", "fc", {"trace_stride": 8 if quick else 40,
+                                  "want_calls": ("LZW", "LZW0", "AHx") if quick else ("LZW", "LZW0", "AHx", "Fl", "CCF", "png")}),
+            ("so", "so", "so", {}),
             ("lzwF", "lzwF", "lzw", {"maps": 1 if quick else 2, "want": ("full", "kwkwk")}),
             ("lzwW", "lzwWc" if lzw_dev else "lzwW", "lzw", {"maps": 1 if quick else 2, "want": ("width", "kwkwk", "ec0", "trail")}),
             ("lzwWF", "lzwWFc" if lzw_dev else "lzwWF", "lzw", {"maps": 1 if quick else 2, "want": ("width", "full", "ec0")}),
@@ -1415,6 +1543,8 @@ def run(ck):
             ("rl3", "rl3", "rl", {"H": 3}), ("rl2", "rl2", "rl", {"H": 2}),
             ("af", "afc" if asc_dev else "af", "af", {}),
             ("pr", "prc" if png_dev else "pr", "pr", {"stride_pdf": 2 if quick else 1})]
+    if not quick:
+        plan = plan + plan_extra
     rfut = {}
     gf, vf = {}, {}
     worker_wall = {}
@@ -1558,6 +1688,31 @@ def replay(path):
             got = ascii85decode(case["enc"])
         elif part == "predictor":
             got, exc = call_predictor(case["kind"], case["colors"], case["columns"], case["bits"], case["enc"])
+        elif part == "object":
+            from pdfminer.pdftypes import PDFStream
+            from pdfminer.psparser import LIT
+            layers = [tuple(l) for l in case["layers"]]
+            at = {}
+            if layers:
+                at["Filter"] = [LIT(FULL[l[0]]) for l in layers]
+                dp = []
+                for l, g in zip(layers, case["parms"]):
+                    d = dict(g or {})
+                    if l[1]:
+                        d["Predictor"] = l[1]
+                    if l[2] >= 0:
+                        d["EarlyChange"] = l[2]
+                    if l[0] == "CCF":
+                        d["K"] = -1
+                    dp.append(d or None)
+                at["DecodeParms"] = dp
+            st = PDFStream(at, case["raw"])
+            for call in case["plan"]:
+                got = getattr(st, call)()
+                print("%s() -> %r" % (call, got))
+                if call == "get_data" and got != exp:
+                    break
+            got = st.get_data()
         elif part == "chain":
             from pdfminer.pdftypes import PDFObjRef, PDFStream
             fd = FakeDoc()
